@@ -196,12 +196,29 @@ def coq_trace(tr):
     return out
 
 
+def coq_rtrace(tr):
+    """the calls a spying CodedInputStream recorded -> list (pop * rval)"""
+    from vlib import coq_bytes
+    out = []
+    for t in tr:
+        if t[0] == "b":
+            out.append("(PByte, VNum %d)" % t[1])
+        elif t[0] == "v":
+            out.append("(PVar, VNum %d)" % t[1])
+        elif t[0] == "f":
+            out.append("(PFixed %d, VNum %d)" % (t[1], t[2]))
+        else:
+            out.append("(PBytes %d, VBytes %s)" % (t[1], coq_bytes(list(bytes.fromhex(t[2])))))
+    return out
+
+
 def trace_layer(ctx, n_pkgs, n_writes):
     """Model.PyTyped against the generated Python writers: the calls made on the coded output stream while the steps of a
     protocol are written (streams as one iterable and as one list), compared call by call with py_wops / py_stream_ops"""
+    from vlib import coq_bytes
     pkgs = codec.build_packages(ctx, n_pkgs, "tr", cpp=False, ndjson=False)
     try:
-        cases, meta = [], []
+        cases, meta, rcases, rmeta = [], [], [], []
         for gp in pkgs:
             for pname, steps in gp.pkg.protocols:
                 schema = gp.schemas_[pname]
@@ -223,8 +240,18 @@ def trace_layer(ctx, n_pkgs, n_writes):
                                 psteps.append("PSStream (%s) [%s [%s]]" % (t.coq(), batch, "; ".join(ymodel.coq_val(x) for x in items)))
                             else:
                                 psteps.append("PSVal (%s) (%s)" % (t.coq(), ymodel.coq_val(w)))
-                        cases.append("([%s], [%s])" % ("; ".join(psteps), "; ".join(coq_trace(tr))))
+                        cases.append("(%s, [%s], [%s])" % (coq_bytes(list(schema.encode("utf-8"))), "; ".join(psteps), "; ".join(coq_trace(tr))))
                         meta.append((gp, pname, mode, stream, tr))
+                        if mode == "copy" and r.get("rtrace") is not None:
+                            rsteps = []
+                            for (sn, t, is_stream), w in zip(steps, ws):
+                                if is_stream:
+                                    rsteps.append("RSStream (%s) [%s]" % (t.coq(), "; ".join("%d%%nat" % len(b) for b in w if b)))
+                                else:
+                                    rsteps.append("RSVal (%s)" % t.coq())
+                            rcases.append("(%s, [%s], %s, [%s])" % (coq_bytes(list(schema.encode("utf-8"))), "; ".join(rsteps),
+                                                                    coq_bytes(list(stream)), "; ".join(coq_rtrace(r["rtrace"]))))
+                            rmeta.append((gp, pname, stream, r["rtrace"]))
                         for _, t, _ in steps:
                             ctx.count("trace_step_shape", t.shape_sig(1))
         shards = [list(range(i, min(i + 40, len(cases)))) for i in range(0, len(cases), 40)]
@@ -250,6 +277,29 @@ def trace_layer(ctx, n_pkgs, n_writes):
                             "broken": "correspondence Model.PyTyped.py_wops vs the serializer classes of _binary.py "
                                       "(theorems C01_py_typed_writer_bytes / C01_py_typed_guarded no longer about the code)"},
                            no_input=True)
+        # the reader side: the calls the generated Python reader makes on the coded input stream, with what they returned
+        rshards = [list(range(i, min(i + 40, len(rcases)))) for i in range(0, len(rcases), 40)]
+
+        def rev(idx):
+            body = ("From Coq Require Import List NArith ZArith Bool.\nImport ListNotations.\nOpen Scope N_scope.\n"
+                    "From YV Require Import Base.Wire Model.Binary Model.CodedCpp Model.CodedPy Model.PyTyped Model.PyTypedCases.\n"
+                    "Definition cases : list rtcase := [\n " + ";\n ".join(rcases[i] for i in idx) + "\n].\n"
+                    "Definition ST := Eval vm_compute in map rtcase_status cases.\nPrint ST.\n")
+            return Ctx.parse_nat_list(ctx.coq_eval("rtr_%d" % idx[0], body, timeout=1500), "ST")
+        with ThreadPoolExecutor(max_workers=8) as ex:
+            rst = [x for r in ex.map(rev, rshards) for x in r]
+        for (gp, pname, stream, tr), s_ in zip(rmeta, rst):
+            ctx.case(("rtrace", pname, stream), nontrivial=len(tr) > 0,
+                     sample={"layer": "py-typed-read-trace", "protocol": pname, "calls": len(tr), "agrees": s_ == 0})
+            ctx.count("read_trace_calls", "<10" if len(tr) < 10 else ("<100" if len(tr) < 100 else ">=100"))
+            if s_ != 0:
+                ctx.report("py-typed-read-trace-differs", "the calls the generated Python reader of protocol %s makes on the coded input "
+                           "stream (with what they return) part from the reader program Model.PyTypedRead.py_read at call %d: "
+                           "observed %s" % (pname, s_ - 1, tr[max(0, s_ - 2):s_ + 1]),
+                           {"layer": "py-typed-read-trace", "model": gp.pkg.yaml(), "namespace": gp.pkg.namespace, "protocol": pname,
+                            "stream_hex": stream.hex(), "observed_calls_around": tr[max(0, s_ - 3):s_ + 2],
+                            "broken": "correspondence Model.PyTypedRead.py_read vs the serializer classes of _binary.py "
+                                      "(theorem C01_py_typed_roundtrip no longer about the code)"}, no_input=True)
     finally:
         codec.stop_packages(pkgs)
 
